@@ -608,7 +608,7 @@ impl World for StreamWorld {
             let tok = refcodec::tokenise(&stream);
             nontrivial = tok.segments.len() >= 2 || (tok.segments.len() == 1 && plan.ops.iter().any(|o| !matches!(o.k, "rec" | "delim")));
             log.bytes(&stream);
-            let mut one = |s: &[u8], vs: &mut Vec<V>, stats: &mut Stats, log: &mut LogHash| {
+            let one = |s: &[u8], vs: &mut Vec<V>, stats: &mut Stats, log: &mut LogHash| {
                 if chunker {
                     run_chunker(s, &c, vs, stats, log)
                 } else {
@@ -625,6 +625,20 @@ impl World for StreamWorld {
                     }
                 }
                 stats.add("fault.truncated_at_every_byte", stream.len() as u64);
+                // And the whole log again with every block size.
+                for b in 0..BLOCKS.len() - 1 {
+                    let mut c2 = cfg(plan);
+                    c2.block = BLOCKS[b] as usize;
+                    c2.block_opt = Some(BLOCKS[b] as usize);
+                    if vs.is_empty() {
+                        if chunker {
+                            run_chunker(&stream, &c2, &mut vs, stats, &mut log)
+                        } else {
+                            run_reader(&stream, &c2, &mut vs, stats, &mut log)
+                        }
+                    }
+                }
+                stats.bump("probe.every_block_size_on_one_log");
             }
         }));
         let mut violations: Vec<Violation> = vs
